@@ -180,8 +180,17 @@ def guard_facts(f, n):
                 # successor 0 is taken when a is true for both
                 truth = (k == 0)
             c, neg = norm_cond(cond)
-            out.append((c, truth != neg))
+            _expand_fact(c, truth != neg, out)
     return out
+
+
+def _expand_fact(c, truth, out):
+    """(a && b)=true gives a, b true; (a || b)=false gives a, b false; `!` is normalised"""
+    out.append((c, truth))
+    if c['k'] == 'BinaryOperator' and ((c.get('op') == '&&' and truth) or (c.get('op') == '||' and not truth)):
+        for x in kids(c):
+            xc, neg = norm_cond(x)
+            _expand_fact(xc, truth != neg, out)
 
 
 def local_writes(f, var_id, within=None):
@@ -242,3 +251,58 @@ def counting_for(f, loop):
                 not x['callee']['n'].startswith('engine::operator'):
             return None
     return vid, rhs, c['op']
+
+
+def expr_key(n):
+    """structural identity of an expression (after stripping casts): same key => same syntax"""
+    n = strip_casts(n)
+    if n is None:
+        return None
+    r = n.get('ref')
+    ref = None
+    if r:
+        ref = (r['k'], r['n'], r.get('id'))
+    return (n['k'], n.get('op'), ref, n.get('cv') if not r else None,
+            n.get('callee', {}).get('fid'),
+            tuple(expr_key(c) for c in kids(n)))
+
+
+def base_locals(n):
+    """ids of local variables/params appearing in expression n"""
+    out = set()
+    for x in walk(n):
+        r = x.get('ref')
+        if r and r['k'] in ('Local', 'Parm') and 'id' in r:
+            out.add(r['id'])
+    return out
+
+
+def string_literal_sites(p, text, under='engine/'):
+    out = []
+    for f in p.repo_funcs(under):
+        for n in f.all_nodes():
+            if n['k'] == 'StringLiteral' and n.get('s') == text:
+                out.append((f, n))
+    return out
+
+
+def in_loop(f, n):
+    c = f.cfg
+    pos = c.position(n)
+    if pos is None:
+        return False
+    for s, d in c.back_edges():
+        if pos[0] in c.natural_loop(s, d):
+            return True
+    return False
+
+
+def enclosing_full_stmt(f, n):
+    """outermost expression statement containing n (child of a CompoundStmt/If/For/...)"""
+    cur = n
+    for a in f.ancestors(n):
+        if a['k'] in ('CompoundStmt', 'IfStmt', 'ForStmt', 'WhileStmt', 'DoStmt', 'SwitchStmt',
+                      'CaseStmt', 'DefaultStmt', 'CXXForRangeStmt', 'LabelStmt'):
+            return cur
+        cur = a
+    return cur
